@@ -102,6 +102,8 @@ def main(argv):
             runs.append(("plain", base))
             runs.append(("reload", rb.domain_inputs(args.tier, args.seed + 1, "XR", scale=0.2 if quick else 0.4)))
             runs.append(("namespace", namespace_inputs(args.seed, 250 if quick else 1500)))
+            # the same kind of input, built around a generator that has already served another graph
+            runs.append(("used-generator", [dict(x, usedgen=True) for x in namespace_inputs(args.seed + 5, 150 if quick else 800)]))
         nbeh = nev = 0
         nontriv = 0
         for mode, inputs in runs:
@@ -138,7 +140,7 @@ def main(argv):
         "distinct_nontrivial": nontriv,
         "rule": "Names.tla: all interleavings of requests (kinds x flavours), uses, removals and reloads from every input of <=3 names incl. generator-shaped ones; "
                 "NamesTrace.tla: every generator call in real restructure behaviours - plain, with to_dict/from_dict between stages, and on inputs named "
-                "inside the generator namespace; non-trivial = a behaviour with at least three name requests",
+                "inside the generator namespace (also built around a generator that already served another graph); non-trivial = a behaviour with at least three name requests",
         "exhaustive": False, "samples": samples,
     })
     return rep.finish()
